@@ -94,11 +94,12 @@ OpenFrom(d) ==
 
 (* the process dies (no Drop) and the log is opened again *)
 CrashOpen ==
-  /\ diskOk
+  \* also while the file has no header (after create / truncate, before the next force): it opens as an empty log
   /\ OpenFrom(disk)
   /\ nextLsn' = IF forced = 0 THEN 0 ELSE appended[forced].lsn + 1
   /\ appended' = SubSeq(appended, 1, forced)
-  /\ UNCHANGED <<disk, diskOk, forced>>
+  /\ diskOk' = TRUE                 \* open writes the header of an empty log back (fix 'header-less log')
+  /\ UNCHANGED <<disk, forced>>
 
 (* clean close (Drop forces the log) followed by open *)
 CloseOpen ==
